@@ -10,6 +10,10 @@ CHECKS = {
             "differential runtime monitor: fmt.Sprintf as executable oracle over generated directives, 3 entry points, small-MaxStringLen family, totality under recover",
             "Every generated format call is executed by the real formatter (tengo.Format, builtin format, fmt.sprintf in a compiled script) and its text is compared byte-for-byte with fmt.Sprintf on the corresponding Go values; arbitrary format bytes and all object kinds are run under recover for totality; a family runs with MaxStringLen in {16,64,300} and requires text equality or ErrStringLimit exactly when Go's text exceeds the limit. Held on the executions listed in evidence, nothing is proved.",
             "Trusted: Go's fmt of the local toolchain; the three exclusions named in the property; %T compared with Tengo type names."),
+    "C18": ("exploration",
+            "differential runtime monitor: encoding/json (Valid, Decoder.UseNumber) as executable oracle over generated values, generated/mutated/raw decoder inputs; Go API and script level; panics caught under recover",
+            "Each generated value is encoded by the real encoder; the bytes must be json.Valid, must be read by encoding/json as the same datum, and must decode back (real decoder) to an equal value with ints preserved exactly. Each decoder input (valid texts in random spellings, byte mutations, raw bytes) is decoded by the real decoder and must fail exactly when json.Valid is false, never panic, and yield the reference datum with int/float typing by literal form. Held on the executions listed in evidence.",
+            "Trusted: encoding/json of the local toolchain. Inputs <= 4 KiB. Float-overflow literals: totality only. Integer literals beyond int64 must come back as the float of that magnitude."),
 }
 
 NOT_YET = "check not built yet in this session (planned, see DESIGN.md section 2)"
